@@ -184,7 +184,6 @@ func Subst(t *Term, params map[string]*Term, fromFn string) *Term {
 	if t == nil {
 		return nil
 	}
-	rec := func(i int) *Term { return Subst(t.Args[i], params, fromFn) }
 	switch t.Op {
 	case "param":
 		if params == nil {
@@ -196,69 +195,60 @@ func Subst(t *Term, params map[string]*Term, fromFn string) *Term {
 		return &Term{K: "⟦" + fromFn + "⟧" + t.K, Op: "foreign", Aux: t.Aux, V: t.V}
 	case "const", "global", "fn":
 		return t
+	}
+	args := make([]*Term, len(t.Args))
+	for i, a := range t.Args {
+		args[i] = Subst(a, params, fromFn)
+	}
+	return rebuild(t, args, fromFn)
+}
+
+// rebuild constructs the node t over already-translated children.
+func rebuild(t *Term, args []*Term, fromFn string) *Term {
+	n := *t
+	n.Args = args
+	tag := func(k string) string {
+		if strings.HasPrefix(k, "⟦") {
+			return k
+		}
+		return "⟦" + fromFn + "⟧" + k
+	}
+	switch t.Op {
 	case "fieldaddr":
-		a := rec(0)
-		return &Term{K: "&" + a.K + "." + t.Aux, Op: t.Op, Aux: t.Aux, Args: []*Term{a}, V: t.V}
+		n.K = "&" + args[0].K + "." + t.Aux
 	case "field":
-		a := rec(0)
-		return &Term{K: a.K + "." + t.Aux, Op: t.Op, Aux: t.Aux, Args: []*Term{a}, V: t.V}
+		n.K = args[0].K + "." + t.Aux
 	case "load":
-		a := rec(0)
 		suffix := ""
 		if i := strings.Index(t.K, ")#"); i >= 0 && strings.HasPrefix(t.K, "load(") {
 			suffix = t.K[i+1:]
 		}
-		return &Term{K: "load(" + a.K + ")" + suffix, Op: t.Op, Args: []*Term{a}, V: t.V, In: t.In}
+		n.K = "load(" + args[0].K + ")" + suffix
 	case "conv", "numconv":
-		a := rec(0)
-		pre := "conv"
-		if t.Op == "numconv" {
-			pre = "numconv"
-		}
+		pre := t.Op
 		if strings.HasPrefix(t.K, "assert<") {
 			pre = "assert"
 		}
-		return &Term{K: pre + "<" + t.Aux + ">(" + a.K + ")", Op: t.Op, Aux: t.Aux, Args: []*Term{a}, V: t.V}
+		n.K = pre + "<" + t.Aux + ">(" + args[0].K + ")"
 	case "binop":
-		a, b := rec(0), rec(1)
-		return &Term{K: "(" + a.K + " " + t.Aux + " " + b.K + ")", Op: t.Op, Aux: t.Aux, Args: []*Term{a, b}, V: t.V}
+		n.K = "(" + args[0].K + " " + t.Aux + " " + args[1].K + ")"
 	case "unop":
-		a := rec(0)
-		return &Term{K: "(" + t.Aux + a.K + ")", Op: t.Op, Aux: t.Aux, Args: []*Term{a}, V: t.V}
+		n.K = "(" + t.Aux + args[0].K + ")"
 	case "indexaddr":
-		a, b := rec(0), rec(1)
-		return &Term{K: "&" + a.K + "[" + b.K + "]", Op: t.Op, Args: []*Term{a, b}, V: t.V}
+		n.K = "&" + args[0].K + "[" + args[1].K + "]"
 	case "index":
-		a, b := rec(0), rec(1)
-		return &Term{K: a.K + "[" + b.K + "]", Op: t.Op, Args: []*Term{a, b}, V: t.V}
+		n.K = args[0].K + "[" + args[1].K + "]"
 	case "extract":
-		a := rec(0)
-		return &Term{K: a.K + "#" + t.Aux, Op: t.Op, Aux: t.Aux, Args: []*Term{a}, V: t.V}
+		n.K = args[0].K + "#" + t.Aux
 	case "varargs":
-		var as []*Term
 		var ks []string
-		for i := range t.Args {
-			x := rec(i)
-			as = append(as, x)
+		for _, x := range args {
 			ks = append(ks, x.K)
 		}
-		return &Term{K: "[" + strings.Join(ks, ", ") + "]", Op: t.Op, Args: as, V: t.V}
-	case "call":
-		var as []*Term
-		for i := range t.Args {
-			as = append(as, rec(i))
-		}
-		k := t.K
-		if !strings.HasPrefix(k, "⟦") {
-			k = "⟦" + fromFn + "⟧" + k
-		}
-		return &Term{K: k, Op: t.Op, Aux: t.Aux, Args: as, V: t.V, In: t.In, Fn: t.Fn}
+		n.K = "[" + strings.Join(ks, ", ") + "]"
 	case "slice":
-		var as []*Term
 		k := "slice("
-		for i := range t.Args {
-			x := rec(i)
-			as = append(as, x)
+		for i, x := range args {
 			if i > 0 {
 				k += ","
 			}
@@ -268,13 +258,11 @@ func Subst(t *Term, params map[string]*Term, fromFn string) *Term {
 				k += x.K
 			}
 		}
-		return &Term{K: k + ")", Op: t.Op, Args: as, V: t.V}
+		n.K = k + ")"
+	default:
+		n.K = tag(t.K)
 	}
-	k := t.K
-	if !strings.HasPrefix(k, "⟦") {
-		k = "⟦" + fromFn + "⟧" + k
-	}
-	return &Term{K: k, Op: t.Op, Aux: t.Aux, Args: t.Args, V: t.V, In: t.In, Fn: t.Fn}
+	return &n
 }
 
 // ParamMap binds the parameters of callee (receiver first) to the argument terms of a call.
@@ -329,33 +317,19 @@ func SubstFree(t *Term, fv map[string]*Term, snap map[string]*Term, fromFn strin
 			return b
 		}
 		return t
+	case "const", "global", "fn":
+		return t
 	case "load":
 		a := SubstFree(t.Args[0], fv, snap, fromFn)
 		if v, ok := snap[a.K]; ok {
 			return v
 		}
-		return &Term{K: "load(" + a.K + ")", Op: "load", Args: []*Term{a}, V: t.V, In: t.In}
+		return rebuild(t, []*Term{a}, fromFn)
 	}
-	if len(t.Args) == 0 {
-		if t.Op == "const" || t.Op == "global" || t.Op == "fn" {
-			return t
-		}
-		return &Term{K: "⟦" + fromFn + "⟧" + t.K, Op: t.Op, Aux: t.Aux, V: t.V, In: t.In}
-	}
-	// rebuild compositional operators through Subst's constructors by first substituting children
 	args := make([]*Term, len(t.Args))
 	for i, a := range t.Args {
 		args[i] = SubstFree(a, fv, snap, fromFn)
 	}
-	cp := *t
-	cp.Args = args
-	// recompute the key with an empty parameter map (children are already final)
-	return rekey(&cp, fromFn)
+	return rebuild(t, args, fromFn)
 }
 
-func rekey(t *Term, fromFn string) *Term {
-	var id map[string]*Term
-	// Subst recurses into Args; with children already substituted and no params bound this only rebuilds keys.
-	// Parameters of the closure itself (rare) become foreign terms.
-	return Subst(t, id, fromFn)
-}
